@@ -11,8 +11,12 @@ sugar, shadowing, includes of the other properties' generators), token-level and
 mutations, odd literals, pragmas, strings, comment shapes, nesting up to a modest depth, arbitrary
 and non-UTF-8 bytes, for the three curves and the three levels: the only accepted outcomes are a
 normal return in-process, and exit status 0 or 1 with the summary line for the binary, within the
-time limit."""
+time limit. (3) Wide inputs (`wide`: hundreds of consecutive ifs / loops / chained signals / reassignments,
+thousands of terms / arguments / elements): each alone through the real binary under a time and an
+address-space limit — time and memory in proportion to the size of the input."""
 import collections
+import subprocess
+import time
 import hashlib
 import json
 import os
@@ -176,6 +180,56 @@ def nest(kind, depth):
 NEST_KINDS = ["paren", "unary", "sum", "ternary", "block", "if", "else", "while", "index", "array", "tuple", "anon", "stmts", "comment",
               "rnest", "horner", "rcond", "idxnest", "idxsig", "idxupd", "callnest", "idxcall"]
 MODEST_DEPTH = 100     # the property speaks of inputs of modest size
+
+
+def wide(kind, n):
+    """inputs that are wide rather than deep: `n` statements / terms / signals one after the other"""
+    H = "pragma circom 2.0.0;\n"
+    if kind == "ifs":          # every `if` is a branch whose extent the taint analysis has to find
+        return H + "function f(x) { var r = 0; " + "".join("if (x == %d) { r = %d; } " % (i, i) for i in range(n)) + "return r; }\n"
+    if kind == "elseifs":
+        return H + "function f(x) { var r = 0; " + "".join("if (x == %d) { r = %d; } else " % (i, i) for i in range(n)) + "{ r = 1; } return r; }\n"
+    if kind == "loops":
+        return H + "function f(x) { var r = 0; " + "".join("for (var i%d = 0; i%d < x; i%d++) { r += %d; } " % (i, i, i, i) for i in range(n)) + "return r; }\n"
+    if kind == "sigchain":     # a chain of intermediate signals, each constrained by the one before
+        return (H + "template T() { signal input a; signal output b; " + "".join("signal s%d; " % i for i in range(n)) + "s0 <== a * a; "
+                + "".join("s%d <== s%d * s%d; " % (i, i - 1, i - 1) for i in range(1, n)) + "b <== s%d; }\ncomponent main = T();\n" % (n - 1))
+    if kind == "sum":          # one expression with n leaves: every node caches the uses below it
+        return H + "template T() { signal input a; signal output b; b <== " + "+".join(["a"] * n) + "; }\ncomponent main = T();\n"
+    if kind == "varchain":
+        return H + "function f(x) { var v0 = x; " + "".join("var v%d = v%d + 1; " % (i, i - 1) for i in range(1, n)) + "return v%d; }\n" % (n - 1)
+    if kind == "reassign":
+        return H + "function f(x) { var v = x; " + "v = v * 3 + 1; " * n + "return v; }\n"
+    if kind == "args":
+        return H + "function g(" + ", ".join("p%d" % i for i in range(n)) + ") { return p0; }\nfunction f(x) { return g(" + ", ".join(["x"] * n) + "); }\n"
+    if kind == "templates":
+        return H + "".join("template T%d() { signal input a; signal output b; b <== a + %d; }\n" % (i, i) for i in range(n))
+    if kind == "array":
+        return H + "function f(x) { var a[%d] = [" % n + ", ".join(["x"] * n) + "]; return a[0]; }\n"
+    return ""
+
+
+# kind -> n: each is 4-16 KB of source; the limits below are per input, on the debug build of the real binary
+WIDE = {"ifs": 400, "elseifs": 400, "loops": 120, "sigchain": 120, "sum": 2000, "varchain": 800, "reassign": 600, "args": 1000, "templates": 300, "array": 1500}
+WIDE_SECONDS = 40
+WIDE_MEMORY = 3 * 1024 ** 3      # address space, 1 GiB of which is the stack the tool reserves for its analysis thread
+
+
+def run_wide(cli, path):
+    """the real binary on one wide input, alone in its process, within the time and memory limits; returns None or what went wrong"""
+    def lim():
+        import resource
+        resource.setrlimit(resource.RLIMIT_AS, (WIDE_MEMORY, WIDE_MEMORY))
+    t0 = time.time()
+    try:
+        p = subprocess.run([cli, path], stdout=subprocess.PIPE, stderr=subprocess.PIPE, timeout=WIDE_SECONDS, preexec_fn=lim)
+    except subprocess.TimeoutExpired:
+        return "no result within %d s" % WIDE_SECONDS, WIDE_SECONDS
+    dt = time.time() - t0
+    out = p.stdout.decode("utf-8", "replace")
+    if p.returncode not in (0, 1) or not re.search(r"^circomspect: .*(issue|issues) found\.$", out, re.M):
+        return "exit status %s under a %d MB address-space limit, stderr: %s" % (p.returncode, WIDE_MEMORY >> 20, p.stderr.decode("utf-8", "replace")[-200:]), dt
+    return None, dt
 
 
 def mutate_tokens(rng, toks):
@@ -347,6 +401,22 @@ def run(ctx):
                     found.append((i, inputs[i][0], inputs[i][1], "binary rc=%s summary=%s stderr=%s" % (o["rc"], o["summary"], o["stderr"][-200:])))
             else:
                 stats["binary exit %s" % o["rc"]] += 1
+        # ---- (3) wide inputs: time and memory in proportion to the size of the input ----------------------
+        wjobs = []
+        for kind, nmax in WIDE.items():
+            for nn in ([nmax] if ctx.tier == "quick" else [nmax // 4, nmax // 2, nmax]):
+                wjobs.append((kind, nn, wd.write("w_%s_%d/main.circom" % (kind, nn), wide(kind, nn).encode())))
+        wres = rl.pmap(lambda j: run_wide(cli, j[2]), wjobs, workers=4)
+        for (kind, nn, path), (bad, dt) in zip(wjobs, wres):
+            if bad and bad.startswith("no result"):
+                bad, dt = run_wide(cli, path)          # once more with the machine to itself, so that load is not mistaken for a hang
+            stats["wide inputs"] += 1
+            stats["wide-%s-%d seconds" % (kind, nn)] = round(dt, 1)
+            if bad:
+                ctx.violation("totality wide-%s %s" % (kind, re.sub(r"\d+", "N", bad)[:60]),
+                              {"stage": "wide input: time and memory", "kind": "wide-%s-%d" % (kind, nn), "bytes": os.path.getsize(path), "outcome": bad,
+                               "limits": {"seconds": WIDE_SECONDS, "address_space_mb": WIDE_MEMORY >> 20}, "input_utf8": open(path).read()[:3000],
+                               "generator": "checks.c01.wide(%r, %d)" % (kind, nn), "broken": None})
         # group by failure site, shrink one representative of each
         groups = collections.OrderedDict()
         for i, kind, data, bad in found:
@@ -384,7 +454,9 @@ def run(ctx):
                    "panic!/unreachable!/assert of the non-test code has a disposition)" % (len(SPECIAL), len(NEST_KINDS), MODEST_DEPTH, n))
     cov["distribution"] = dict(stats)
     cov["samples"] = samples or [{"ledger": {k: v for k, v in ledger.items() if k != "problems"}}]
-    ctx.assumptions += ["inputs of modest size: nesting depth <= %d, file size <= a few KB" % MODEST_DEPTH,
+    ctx.assumptions += ["inputs of modest size: nesting depth <= %d, width (consecutive statements / terms / signals / arguments) <= %d, file size <= 20 KB; "
+                        "a wide input must finish within %d s in at most %d MB of address space on the debug build" % (MODEST_DEPTH, max(WIDE.values()), WIDE_SECONDS, WIDE_MEMORY >> 20),
+                        "deeper inputs (tens of thousands of nested blocks overflow the 1 GiB stack of the analysis thread: audits/C01/f4) are not modest",
                         "panic sites with the dispositions `environment` (stdout / file-system failures) and `trusted` (third-party contracts) are not exercised"]
 
 
